@@ -33,7 +33,7 @@ PInit ==
   /\ \E f \in PStates(cf.ord) : st = [k \in DOMAIN f |-> PEntry(k, f[k])]
   /\ chEx = TRUE /\ chOrd = cf.ord /\ top = 0 /\ win = <<>> /\ ep = 1 /\ epc = 1
   /\ expAt = 0 /\ expQ = 0 /\ remAt = 0 /\ remQ = 0
-  /\ idem = Empty /\ iq = {} /\ gidem = Empty /\ nkc = 0 /\ pend = <<>>
+  /\ idem = Empty /\ iq = {} /\ gidem = Empty /\ nkc = 0 /\ pl = FALSE /\ hq = <<>> /\ sub = DOMAIN st /\ pend = <<>>
   /\ now = 0 /\ npub = 0 /\ nops = 0 /\ bc = <<>>
   /\ step = [act |-> "Init"]
   /\ tbl = Table
